@@ -18,6 +18,7 @@ import (
 	"testing"
 	"time"
 
+	"github.com/kardiachain/go-kardia/configs"
 	"github.com/kardiachain/go-kardia/lib/common"
 	"github.com/kardiachain/go-kardia/lib/crypto"
 	"github.com/kardiachain/go-kardia/lib/rlp"
@@ -1272,6 +1273,167 @@ func c11SigValues(o *vfOut, r *vfRand) {
 
 // ---------------------------------------------------------------- entry point
 
+// c11SignerChoice: WHICH signer the node uses decides whether the chain id is bound at all. For a
+// configuration (chain id, Galaxias switch block or none) and block numbers around the switch:
+// MakeSigner gives the chain-id signer exactly from the switch block on, that signer refuses a
+// transaction signed for another chain and recovers the sender of one signed for this chain;
+// LatestSigner / LatestSignerForChainID likewise.
+func c11SignerChoice(o *vfOut, r *vfRand) {
+	key, addr := c11Key()
+	chain := big.NewInt(int64(1 + r.Intn(1000)))
+	other := new(big.Int).Add(chain, big.NewInt(int64(1+r.Intn(5))))
+	var g *uint64
+	if !r.Chance(25) {
+		x := uint64(r.Intn(50))
+		g = &x
+	}
+	cfg := &configs.ChainConfig{ChainID: chain, GalaxiasBlock: g}
+	mk := func(sg Signer) *Transaction { // a fresh object every time: Sender caches per transaction
+		to := common.BytesToAddress([]byte{7})
+		tx, err := SignTx(sg, NewTransaction(3, to, big.NewInt(5), 21000, big.NewInt(1), []byte{1, 2}), key)
+		if err != nil {
+			return nil
+		}
+		return tx
+	}
+	desc := func(bn *uint64) string {
+		gs, bs := "none", "nil"
+		if g != nil {
+			gs = fmt.Sprint(*g)
+		}
+		if bn != nil {
+			bs = fmt.Sprint(*bn)
+		}
+		return fmt.Sprintf("chain=%v galaxias=%s block=%s", chain, gs, bs)
+	}
+	check := func(sg Signer, active bool, what string) {
+		cid, isCID := sg.(ChainIDSigner)
+		if isCID != active {
+			o.Viol("c11-signer-choice", fmt.Sprintf("%s: chain-id signer=%v, expected %v", what, isCID, active))
+			return
+		}
+		if !active {
+			if _, isH := sg.(HomesteadSigner); !isH {
+				o.Viol("c11-signer-choice", fmt.Sprintf("%s: %T instead of the Homestead signer", what, sg))
+			}
+			if tx := mk(HomesteadSigner{}); tx != nil {
+				if from, err := Sender(sg, tx); err != nil || from != addr {
+					o.Viol("c11-signer-choice", fmt.Sprintf("%s: unprotected transaction not recovered: %v %v", what, from, err))
+				}
+			}
+			return
+		}
+		if cid.ChainID().Cmp(chain) != 0 {
+			o.Viol("c11-signer-choice", fmt.Sprintf("%s: signer for chain %v", what, cid.ChainID()))
+		}
+		if tx := mk(NewChainIDSigner(chain)); tx != nil {
+			if from, err := Sender(sg, tx); err != nil || from != addr {
+				o.Viol("c11-signer-choice", fmt.Sprintf("%s: transaction signed for this chain not recovered: %v %v", what, from, err))
+			}
+		}
+		if tx := mk(NewChainIDSigner(other)); tx != nil {
+			if from, err := Sender(sg, tx); err == nil {
+				o.Viol("c11-tx-replay-across-chains", fmt.Sprintf("%s: a transaction signed for chain %v is accepted (sender %x)", what, other, from[:4]))
+			}
+		}
+	}
+	vfGuard(o, "c11-signer-choice-panic", func() string { return desc(nil) }, func() {
+		bns := []uint64{0, 1, 49, 50, 1 << 40}
+		if g != nil {
+			bns = append(bns, *g, *g+1)
+			if *g > 0 {
+				bns = append(bns, *g-1)
+			}
+		}
+		for _, bn := range bns {
+			b := bn
+			check(MakeSigner(cfg, &b), g != nil && bn >= *g, "MakeSigner "+desc(&b))
+		}
+		check(MakeSigner(cfg, nil), false, "MakeSigner "+desc(nil))
+		check(LatestSigner(cfg), g != nil, "LatestSigner "+desc(nil))
+		check(LatestSigner(&configs.ChainConfig{GalaxiasBlock: g}), false, "LatestSigner without chain id "+desc(nil))
+		check(LatestSignerForChainID(chain), true, "LatestSignerForChainID "+desc(nil))
+		check(LatestSignerForChainID(nil), false, "LatestSignerForChainID(nil)")
+	})
+	o.Stat("signer-choice")
+	o.Case("signer-choice:"+desc(nil), true)
+}
+
+// c11WireForms: a signed vote / proposal / transaction keeps its signer and content across the
+// wire form (ToProto -> FromProto, RLP, the transaction list of a block)
+func c11WireForms(o *vfOut, r *vfRand) {
+	key, addr := c11Key()
+	chain := c11Chain(r)
+	pv := NewDefaultPrivValidator(key)
+	vfGuard(o, "c11-wire-forms-panic", func() string { return "proposal" }, func() {
+		bid := c11BlockID(r)
+		if !bid.IsComplete() || bid.ValidateBasic() != nil {
+			bid = BlockID{Hash: c11FlipHash(r, common.Hash{}), PartsHeader: PartSetHeader{Total: 1 + uint32(r.Intn(5)), Hash: c11FlipHash(r, common.Hash{})}}
+		}
+		round := c11U32(r) % 1000
+		pol := uint32(0)
+		if round > 1 && r.Bool() {
+			pol = 1 + uint32(r.Intn(int(round)-1))
+		}
+		prop := NewProposal(1+c11U64(r)%(1<<40), round, pol, bid)
+		pb := prop.ToProto()
+		before := ProposalSignBytes(chain, pb)
+		if err := pv.SignProposal(chain, pb); err != nil {
+			return
+		}
+		prop.Signature = pb.Signature
+		back, err := ProposalFromProto(prop.ToProto())
+		if err != nil {
+			o.Viol("c11-proposal-wire-roundtrip", fmt.Sprintf("ProposalFromProto(ToProto()) of a signed proposal fails: %v (h=%d r=%d pol=%d)", err, prop.Height, prop.Round, prop.POLRound))
+			return
+		}
+		if !bytes.Equal(ProposalSignBytes(chain, back.ToProto()), before) || !c11PropVerify(chain, addr, back) {
+			o.Viol("c11-proposal-wire-roundtrip", fmt.Sprintf("the proposal read back signs other bytes or no longer verifies (h=%d r=%d pol=%d)", prop.Height, prop.Round, prop.POLRound))
+		}
+		o.Stat("wire.proposal")
+	})
+	vfGuard(o, "c11-wire-forms-panic", func() string { return "transactions" }, func() {
+		sg := Signer(HomesteadSigner{})
+		if r.Bool() {
+			sg = NewChainIDSigner(big.NewInt(int64(1 + r.Intn(1000))))
+		}
+		var txs Transactions
+		for k := 1 + r.Intn(3); k > 0; k-- {
+			to := common.BytesToAddress(r.Bytes(20))
+			var tx *Transaction
+			if r.Chance(25) {
+				tx = NewContractCreation(c11U64(r), new(big.Int).SetBytes(r.Bytes(r.Intn(12))), c11U64(r), new(big.Int).SetBytes(r.Bytes(r.Intn(8))), r.Bytes(r.Intn(40)))
+			} else {
+				tx = NewTransaction(c11U64(r), to, new(big.Int).SetBytes(r.Bytes(r.Intn(12))), c11U64(r), new(big.Int).SetBytes(r.Bytes(r.Intn(8))), r.Bytes(r.Intn(40)))
+			}
+			stx, err := SignTx(sg, tx, key)
+			if err != nil {
+				return
+			}
+			txs = append(txs, stx)
+		}
+		// the block's wire form carries the list as data; what comes back must be the same signed transactions
+		pbd := txs.ToProto()
+		back, err := DataFromProto(&pbd)
+		if err != nil {
+			o.Viol("c11-tx-wire-roundtrip", "DataFromProto(ToProto()) fails: "+err.Error())
+			return
+		}
+		if len(back) != len(txs) {
+			o.Viol("c11-tx-wire-roundtrip", fmt.Sprintf("%d transactions went in, %d came back", len(txs), len(back)))
+			return
+		}
+		for i := range txs {
+			from, err := Sender(sg, back[i])
+			if back[i].Hash() != txs[i].Hash() || err != nil || from != addr {
+				o.Viol("c11-tx-wire-roundtrip", fmt.Sprintf("transaction %d: hash %x -> %x, sender %x err %v", i, txs[i].Hash(), back[i].Hash(), from[:4], err))
+			}
+		}
+		o.Stat("wire.txs")
+	})
+	o.Case("wire-forms:"+chain, true)
+}
+
 func TestVerifC11(t *testing.T) {
 	o := vfOpen()
 	defer o.Close()
@@ -1290,7 +1452,12 @@ func TestVerifC11(t *testing.T) {
 		case 5, 6:
 			c11TxOracle(o, r)
 		default:
-			c11SigValues(o, r)
+			if i%16 == 15 {
+				c11SignerChoice(o, r)
+				c11WireForms(o, r)
+			} else {
+				c11SigValues(o, r)
+			}
 		}
 	}
 }
